@@ -3,8 +3,8 @@
 * `Native()` creates a `mkdtemp` scratch directory (removed at exit), builds there the C driver
   `x86drv` (xv/x86drv.c + the assembly trampoline xv/x86tramp.S) and the control library `ctl.so`
   (xv/x86ctl.S: hand-written callees with known good / bad ABI behaviour).
-* `Native.assemble(tag, [(symbol, asm text), ...])` assembles every function separately with `as`
-  (so a rejection is attributed to one function) and links the accepted ones into one shared object.
+* `Native.assemble(tag, [(symbol, asm text), ...])` assembles the units with `as`, attributes every
+  rejection to one unit (by line number) and links the accepted ones into one shared object.
 * `Native.run(so, [(symbol, nargs, [arg rows]), ...])` performs the calls in a CHILD process
   (`subprocess.run(timeout=)`); a SIGSEGV / SIGILL / hang of generated code kills only the child.  The
   driver prints "S sym" before and "D sym" after the calls of a function, so the culprit is the started but
@@ -127,21 +127,81 @@ class Native:
 
     # ------------------------------------------------------------------ assembling
     def assemble(self, tag: str, units):
-        """units: [(symbol, asm text)] -> (so path or None, {symbol: assembler stderr} for rejected units)."""
+        """units: [(symbol, asm text)] -> (so path or None, {symbol: assembler stderr} for rejected units).
+
+        All units are concatenated and assembled by ONE `as` run; error lines carry line numbers, which are mapped
+        back to the unit (and rewritten unit-relative as `<asm>:N:`); rejected units are dropped and the rest is
+        assembled again.  Anything that cannot be attributed falls back to one `as` run per unit."""
+        rejected = {}
+        self.stats["asm_units"] += len(units)
+        live = list(units)
+        obj = os.path.join(self.dir, f"{tag}.o")
+        for _round in range(3):
+            if not live:
+                break
+            src = os.path.join(self.dir, f"{tag}.s")
+            spans = []
+            line = 1
+            with open(src, "w") as f:
+                for sym, text in live:
+                    if not text.endswith("\n"):
+                        text += "\n"
+                    n = text.count("\n")
+                    spans.append((line, line + n - 1, sym))
+                    f.write(text)
+                    line += n
+            if os.path.exists(obj):
+                os.unlink(obj)
+            p = subprocess.run(["as", "--64", "-o", obj, src], capture_output=True, text=True, timeout=120)
+            self.stats["as_runs"] = self.stats.get("as_runs", 0) + 1
+            if p.returncode == 0 and os.path.exists(obj):
+                break
+            bad = {}
+            unattributed = False
+            for ln in p.stderr.splitlines():
+                mo = re.match(re.escape(src) + r":(\d+): (.*)", ln)
+                if not mo:
+                    if "Error" in ln and "Assembler messages" not in ln:
+                        unattributed = True
+                    continue
+                no = int(mo.group(1))
+                hit = [(a, sym) for a, b, sym in spans if a <= no <= b]
+                if not hit:
+                    unattributed = True
+                    continue
+                a, sym = hit[0]
+                if "Error" in mo.group(2):
+                    bad.setdefault(sym, []).append(f"<asm>:{no - a + 1}: {mo.group(2)}")
+            if unattributed or not bad:
+                return self._assemble_each(tag, units)
+            for sym, msgs in bad.items():
+                rejected[sym] = "\n".join(msgs)[:1500]
+            live = [(sym, text) for sym, text in live if sym not in bad]
+        else:
+            return self._assemble_each(tag, units)
+        self.stats["asm_rejected"] += len(rejected)
+        if not live:
+            return None, rejected
+        so = os.path.join(self.dir, f"{tag}.so")
+        self._sh(["gcc", "-shared", "-nostdlib", "-o", so, obj, "-Wl,-z,noexecstack"])
+        self.stats["links"] += 1
+        return so, rejected
+
+    def _assemble_each(self, tag: str, units):
         rejected = {}
         objs = []
         for sym, text in units:
-            self.stats["asm_units"] += 1
             s = os.path.join(self.dir, f"{tag}_{sym}.s")
             o = os.path.join(self.dir, f"{tag}_{sym}.o")
             with open(s, "w") as f:
                 f.write(text)
             p = subprocess.run(["as", "--64", "-o", o, s], capture_output=True, text=True, timeout=60)
+            self.stats["as_runs"] = self.stats.get("as_runs", 0) + 1
             if p.returncode != 0 or not os.path.exists(o):
-                self.stats["asm_rejected"] += 1
                 rejected[sym] = p.stderr.replace(s, "<asm>")[:1500]
             else:
                 objs.append(o)
+        self.stats["asm_rejected"] += len(rejected)
         if not objs:
             return None, rejected
         so = os.path.join(self.dir, f"{tag}.so")
@@ -284,9 +344,9 @@ class Native:
         }
         order = ["xvc_ok9", "xvc_id32", "xvc_ebx", "xvc_rbx", "xvc_ill", "xvc_rbp", "xvc_r12", "xvc_r13", "xvc_r14",
                  "xvc_r15", "xvc_segv", "xvc_ret8", "xvc_leak", "xvc_canary", "xvc_df", "xvc_mxcsr", "xvc_wrong", "xvc_off"]
-        if valgrind:
+        if valgrind:  # memcheck controls only: clean callees stay clean, the below-rsp store is reported
             expect["xvc_below"] = (1, [[9]], set(), 9, None)
-            order.append("xvc_below")
+            order = ["xvc_ok9", "xvc_id32", "xvc_ebx", "xvc_off", "xvc_below", "xvc_canary"]
         res = self.run(self.ctl, [(s, expect[s][0], expect[s][1]) for s in order], valgrind=valgrind)
         n = {"controls_run": 0, "controls_bad_flagged": 0, "controls_good_clean": 0, "controls_crash_contained": 0}
         for s in order:
@@ -323,6 +383,8 @@ class Native:
                     n["controls_valgrind_flagged"] = 1
                 elif inv and s not in ("xvc_leak",):
                     raise ControlFailure(f"valgrind control {s}: unexpected memcheck report {inv[:2]}")
+        if valgrind:
+            return n
         # hang containment (own child, short timeout)
         rc, _ = self._child(self.ctl, [("xvc_spin", 0, [[]])], timeout=1.5)
         if rc != "timeout":
